@@ -6,6 +6,8 @@
 EXTENDS Indexing, TraceIO
 
 Want(r) == CASE r.fam = "vindex" -> VIndex(r.shape, r.pts)
+             [] r.fam = "vindexc" -> VIndexC(r.shape, r.comps)
+             [] r.fam = "mask"    -> MaskResult(r.shape, r.mask)
              [] r.fam = "blocks" -> BlocksResult(r.shape, r.chunks, r.comps)
              [] OTHER            -> Result(r.shape, r.comps)
 
